@@ -203,6 +203,8 @@ pub struct Doc {
     pub banner: Option<String>,
     /// Windows line endings
     pub crlf: bool,
+    /// tabs instead of four spaces, blank lines at the top
+    pub tabs: bool,
 }
 
 fn render_doc_comment(doc: &Option<String>, out: &mut String, sep: &str) {
@@ -366,6 +368,9 @@ impl Doc {
         }
         s.push_str(if self.members_one_line { " " } else { "\n" });
         s.push_str("}\n");
+        if self.tabs {
+            s = format!("\n\n{}", s.replace("\n    ", "\n\t"));
+        }
         if self.crlf {
             s = s.replace('\n', "\r\n");
         }
@@ -404,6 +409,7 @@ impl Doc {
         push(&|d| d.doc = None);
         push(&|d| d.banner = None);
         push(&|d| d.crlf = false);
+        push(&|d| d.tabs = false);
         push(&|d| d.oneway = false);
         for (i, m) in self.members.iter().enumerate() {
             match m {
@@ -1021,6 +1027,7 @@ pub fn gen_doc(
             None
         },
         crlf: rng.pct(k.p_crlf),
+        tabs: rng.pct(k.p_block_comments / 2),
     }
 }
 
